@@ -5,6 +5,7 @@ import (
 	"fmt"
 	"math"
 	"regexp"
+	"strings"
 	"time"
 
 	"github.com/yaricom/goNEAT/v4/experiment"
@@ -32,7 +33,7 @@ func init() {
 		RealParts:  []string{"genetics.NewGenomeWriter / NewGenomeReader (plain, YAML), Genome.Write / ReadGenome, Organism.MarshalBinary / UnmarshalBinary, Population.Write / ReadPopulation", "network.FastModularNetworkSolver.WriteModel / ReadFMNSModel", "experiment.Experiment.Write / Read with Trial / Generation / champion gob encoding", "bufio, encoding/json, encoding/gob, yaml.v3"},
 		StubParts:  []string{"disk: in-memory io.Reader / io.Writer with tape-chosen fragmentation and failure byte", "GenerationEvaluator of the simulated experiment (scripted)", "wall clock of the simulated experiment (fake clock)"},
 		FaultKinds: []string{"fault.write_error", "fault.write_error_transient", "fault.read_error", "fault.short_reads", "fault.one_byte_reads", "fault.eof_with_data"},
-		Assumes:    []string{"weights, trait parameters and fitness values are finite float64 (NaN / Inf are not reachable by the operators from finite start values within the documented option ranges)", "generation records carry a champion, as every record made by an evaluator that fills the generation statistics does (Generation.Encode omits a nil champion while Decode expects one: observed and counted, not judged)", "Trial.Duration and the champion's species are not part of the saved form (the statement lists trials, generations, champions and the fitness / complexity / diversity / winner statistics)", "nothing is demanded of reads of torn data (a write that reported its error): counted only"},
+		Assumes:    []string{"weights, trait parameters and fitness values are finite float64 (NaN / Inf are not reachable by the operators from finite start values within the documented option ranges)", "generation records carry a champion, as every record made by an evaluator that fills the generation statistics does (Generation.Encode omits a nil champion while Decode expects one: observed and counted, not judged)", "Trial.Duration and the champion's species are not part of the saved form (the statement lists trials, generations, champions and the fitness / complexity / diversity / winner statistics)", "a fast solver whose folded bias sum overflowed to infinity (only reachable with the planted extreme weights) cannot be expressed in JSON and is skipped", "nothing is demanded of reads of torn data (a write that reported its error): counted only"},
 		ProbeNames: []string{"probe.rt.plain", "probe.rt.yaml", "probe.rt.yaml_modular", "probe.rt.organism", "probe.rt.population", "probe.rt.fastsolver", "probe.rt.fastsolver_modular", "probe.rt.experiment", "probe.genome.disabled", "probe.genome.recurrent", "probe.genome.nil_trait", "probe.genome.nondefault_activation", "probe.weight.extreme", "probe.sweep", "probe.write_fault.error_reported", "probe.read_fault.error_reported", "probe.experiment.cut_short"},
 	})
 }
@@ -396,6 +397,12 @@ func fastSolverObject(c *RunCtx, g *genetics.Genome, ops []netOp) *ioObject {
 		return nil
 	}
 	o := &ioObject{kind: ioFast, desc: fmt.Sprintf("fast solver of genome [%s modules=%d]", rec.Pretty(), len(g.ControlGenes)), hash: Mix(rec.Hash(), 11)}
+	// planted extreme weights on two bias links of one neuron can sum to an infinite folded bias, which JSON cannot
+	// express: such a solver is outside the finite-parameter assumption (counted, not judged)
+	if err := orig.WriteModel(NewSimWriter(-1)); err != nil && strings.Contains(err.Error(), "unsupported value") {
+		c.Count("skipped.fastsolver_nonfinite_parameter")
+		return nil
+	}
 	o.write = func(w *SimWriter) error { return orig.WriteModel(w) }
 	o.read = func(r *SimReader) (string, error) {
 		got, err := network.ReadFMNSModel(r)
